@@ -103,10 +103,11 @@ func runNumbers(c *mc.Ctx, u *units) {
 			c.Inc("evaluations")
 			c.Inc("numbers")
 			c.Outcome(outcome)
+			c.Inc("distinct_nontrivial")
 			if len(ps) > 0 {
 				report(c, ps, replay{Kind: "number", Coef: coef.String(), Exp: e})
-			} else {
-				c.Inc("distinct_nontrivial")
+			} else if c.WantSample() && e == -3 && coef.BitLen() > 64 {
+				c.Sample(map[string]any{"kind": "number", "coef": coef.String(), "exp": e, "outcome": outcome})
 			}
 		}
 	}
@@ -624,6 +625,12 @@ func evalDateTime(c *mc.Ctx, es *envSpec, t time.Time, form string, tr *trInstan
 		}
 		if tr.label != "" {
 			c.Fact(tr.label + ":" + es.tzn)
+		}
+		if midnightMissing(lt.Year(), int(lt.Month()), lt.Day(), es.tz) {
+			c.Fact("day-without-midnight:" + es.tzn)
+		}
+		if c.WantSample() && amb {
+			c.Sample(map[string]any{"kind": "datetime", "form": form, "environment": es.label, "value": t.Format(time.RFC3339Nano), "rendered": text, "parsed_back": describe(p)})
 		}
 	}
 
